@@ -36,10 +36,11 @@ def default_conf(moddir, modules=("iauth_xquery",), timeout=None, services=(), r
            "    modules ( %s );" % ", ".join(modules), "};"]
     if timeout is not None:
         out += ["iauth {", "    timeout %s;" % timeout, "};"]
-    out += ["iauth_xquery {"]
-    for name, proto in services:
-        out.append('    "%s" "%s";' % (name, proto))
-    out += ["};"]
+    if services is not None:          # None: the file has no iauth_xquery section at all
+        out += ["iauth_xquery {"]
+        for name, proto in services:
+            out.append('    "%s" "%s";' % (name, proto))
+        out += ["};"]
     if rules_text:
         out += ["iauth_class {", rules_text, "};"]
     if logs_text:
